@@ -473,6 +473,19 @@ def work_invariance(task, res: Result):
         return
     v0, v1 = float(np.real(v0)), float(np.real(v1))
     res.case(desc, max(probs) + 1e-2 <= v0 <= 1 - 1e-2, f"invariance/{pd}/sys{sys}/{dA}x{dB}")
+    # the value is a function of the ensemble, not of the order in which it is listed (the first listed state may be the real one or a complex one)
+    k = len(probs)
+    perm = [int(x) for x in call_rng(inst.get("pres") or 1, "perm").permutation(k)]
+    ri = list(inst.get("real_idx", ()))
+    st2 = present_list(call_rng(inst.get("pres"), "inv2"), [np.asarray(inst["states"][i]) for i in perm], force_real=[n for n, i in enumerate(perm) if i in ri])
+    try:
+        v2 = float(np.real(ppt_distinguishability(vectors=st2, subsystems=[sys], dimensions=[dA, dB], probs=[probs[i] for i in perm], primal_dual=pd)[0]))
+        res.count("invariance/relabelling-checked")
+        if abs(v0 - v2) > 2 * TAU:
+            res.violation(f"PPT value depends on the order in which the ensemble is listed: {v0:.8f} vs {v2:.8f} (order {perm})",
+                          {"function": "ppt_distinguishability", "args": dict(desc, perm=perm), "values": [v0, v2], "presentation": describe(st2), "theorem": "the PPT value is a function of the ensemble {(p_i, rho_i)}"})
+    except (ArithmeticError, ZeroDivisionError):
+        res.count("invariance/relabelling-solver-numerical-failure")
     if abs(v0 - v1) > 2 * TAU:
         res.violation(f"PPT value not invariant under a local unitary: {v0:.8f} vs {v1:.8f}", {"function": "ppt_distinguishability", "args": desc, "values": [v0, v1], "theorem": "ppt_local_unitary_invariant"})
 
